@@ -24,9 +24,12 @@ MENU = [
     dict(math_mode_delimiter='$$'),                                                     # 12 delimiter only
     dict(latex_inline_math_delimiters=[('$', '$'), ('!', '!')]),                        # 13 added delimiter
     dict(in_math_mode=True),                                                            # 14 math without delimiter
+    dict(math_mode_delimiter=None),                                                     # 15 explicit None
+    dict(latex_group_delimiters=None, latex_inline_math_delimiters=None),               # 16 reset lists to their defaults
 ]
 STARTS = [dict(), dict(in_math_mode=True, math_mode_delimiter='$'),
-          dict(latex_group_delimiters=[('{', '}'), ('[', ']')], in_math_mode=True, math_mode_delimiter=BS + '(')]
+          dict(latex_group_delimiters=[('{', '}'), ('[', ']')], in_math_mode=True, math_mode_delimiter=BS + '('),
+          dict(forbidden_characters='a$', latex_inline_math_delimiters=[('$', '!')], latex_group_delimiters=[('<', '>')])]
 
 
 def tokens(s, ps, tolerant):
@@ -88,6 +91,9 @@ def conditions(tier):
     for b in (5, 6, 13, 12, 2):
         chains.append((2, (b,)))
         chains.append((1, (b, 0)))
+    for b in (0, 3, 7, 15, 16):
+        chains.append((3, (b,)))
+    chains += [(0, (11, 0)), (0, (11, 3)), (1, (15, 12)), (0, (4, 16))]
     if not quick:
         for a in range(len(MENU)):
             for b in range(len(MENU)):
@@ -111,7 +117,7 @@ def conditions(tier):
 META = dict(
     functions=['ParsingState.sub_context/get_fields/__init__/finalize_state/_finalize_state_latex_group_delimiters_info/'
                '_finalize_state_latex_math_delim_info/_finalize_state_inmathmode_info', 'LatexTokenReader (token stream under both states)'],
-    bounds=dict(quick='91 chains of 1-2 sub_context() calls from 3 start states over a menu of 15 field changes (math mode and delimiter, '
+    bounds=dict(quick='about 100 chains of 1-2 sub_context() calls from 4 start states over a menu of 17 field changes (math mode and delimiter, '
                       'group / inline / display delimiter lists with changed closers, enable_* flags, escape and comment characters, '
                       'forbidden characters); compared on the token stream of every Unicode string of length <= 2, strict and tolerant '
                       'alternating',
